@@ -59,5 +59,6 @@ package keys
 //@   ensures[def] SigWellFormed(ret0) && Parse36(SplitBar(ret0)[0]) == G_bigval(r) && Parse36(SplitBar(ret0)[1]) == G_bigval(s)
 
 //@ func Sign(priv *ecdsa.PrivateKey, data []byte) (r, s *big.Int, err error)
+//@   safety on
 //@   modifies nothing
 //@   ensures[def] err == nil ==> r != nil && s != nil && Signed(priv, data, G_bigval(r), G_bigval(s))
